@@ -28,6 +28,7 @@ HOSTILE = {
     "fmt": "%(a)s", "pd": "%d", "l": [0, "7", None, [], {}, "x", 2.5, "true"], "el": [], "em": {},
     "m": {"a": "1", "b": "true", "c": None, 0: "5", 2.5: "FALSE", True: "x", None: "9"},
     0: "3", 1: ["4", "no"], 2.5: "false", None: "8", True: "TRUE", "big": 2**63 - 1, "digits": "9" * 400,
+    "inf": "inf", "ninf": "-Infinity", "huge": "1e999", "nan": "nan", "{x}": "{y}", "${HOME}": 1,
     "deep": {"a": {"b": {"c": "7", "d": ["1", "t", {"e": "true"}]}}},
 }
 HOSTILE_LIST = ["3", 0, None, "true", ["5", "x", 0], {"a": "1", 0: "2", None: "3"}, "", 2.5, "100%", [], {}]
@@ -56,6 +57,8 @@ CAST_PATHS = [
     ("none-key", [{"p": "map", "key": PC.L("key", "equal_to", None)}]),
     ("none-key", [{"p": "prim", "v": "m"}, {"p": "map", "key": PC.L("key", "equal_to", None)}]),
     ("str-key", [{"p": "prim", "v": "num"}]), ("str-key", [{"p": "prim", "v": "digits"}]),
+    ("str-key", [{"p": "prim", "v": "inf"}]), ("str-key", [{"p": "prim", "v": "ninf"}]), ("str-key", [{"p": "prim", "v": "huge"}]),
+    ("str-key", [{"p": "prim", "v": "nan"}]),
     ("depth>=3", [{"p": "prim", "v": "deep"}, {"p": "prim", "v": "a"}, {"p": "prim", "v": "b"}, {"p": "prim", "v": "c"}]),
     ("depth>=3", [{"p": "prim", "v": "deep"}, {"p": "prim", "v": "a"}, {"p": "prim", "v": "b"}, {"p": "prim", "v": "d"}, {"p": "list"}]),
     ("empty-path", []),
